@@ -18,8 +18,9 @@ fragment it knows -- *mechanically and faithfully*:
                                            later `x not in NAME`, `x != NAME.value` expand over the keys
   * codec hand-off statements            -> `return <route>`:  1 pack_bits, 2 tobytes, 3 PIL JPEG,
                                            4 openjpeg 1-bit, 5 pydicom encoder;  decode: 1 unpack_bits, 2/3 pydicom
-  * dataset building in decode_frame (`ds.X = ...`), codec keyword dicts (`kwargs = ...`), dtype casts of the
-    array and `try: import ...` blocks are dropped (they do not influence accept/refuse).
+  * dataset building in decode_frame (`ds.X = ...`) and `try: import ...` blocks are dropped; codec keyword dicts, the
+    encoder object and the one cast `array = array.astype(bool)` are dropped BY EXACT TEXT (`ENC_DROPPED`, with the reason
+    why the model stays faithful); any other assignment to those names is Unsupported.
 
 Anything else outside the fragment raises Unsupported => TRANSLATION-BROKEN.
 """
@@ -87,7 +88,7 @@ class Pre:
         self.colls = {}      # name -> list of ast exprs
         self.dictsel = {}    # name -> (key expr, [(key ast, value)])  value: list of ast | ast (enum member) | None
         self.routes = routes
-        self.drop_targets = set(drop_targets)
+        self.drop_targets = drop_targets if isinstance(drop_targets, dict) else set(drop_targets)
         self.drop_attr_bases = set(drop_attr_bases)
         self.enum_cache = {}
 
@@ -220,6 +221,10 @@ class Pre:
                 if r is not None:
                     return [self.route_return(st, r)]
                 if name in self.drop_targets:
+                    # dropped only when the statement is one the model accounts for (exact text); a set = any text
+                    allowed = self.drop_targets[name] if isinstance(self.drop_targets, dict) else None
+                    if allowed is not None and ast.unparse(st) not in allowed:
+                        raise Unsupported(f'assignment to {name} that the model does not account for: {ast.unparse(st)[:80]}')
                     return []
                 # x = Enum(x).value
                 if isinstance(val, ast.Attribute) and val.attr == 'value' and isinstance(val.value, ast.Call) \
@@ -320,6 +325,19 @@ ENC_ATTRS = {
 }
 
 
+# assignments of encode_frame that have no counterpart in the model, by exact text, and why that is faithful:
+#  * codec keyword dicts and the encoder object do not influence accept / refuse or the values;
+#  * `array = array.astype(bool)` (1-bit JPEG 2000 lossless) is reached only after the check that the array is bool or an
+#    integer array with 0 <= min and max <= 1 (part of the translated tree; `Props/C07.one_bit_j2k_values_binary`), on
+#    which the cast preserves every value -- the model hands the codec the unchanged frame.
+# Any other assignment to these names is TRANSLATION-BROKEN.
+ENC_DROPPED = {
+    'kwargs': {'kwargs = {}', "kwargs = {'j2k_psnr': [100]}"},
+    'encoder': {'encoder = get_encoder(transfer_syntax_uid)'},
+    'array': {'array = array.astype(bool)'},
+}
+
+
 def _repo_src():
     return os.path.join(os.environ.get('HD_REPO', '/repo'), 'src', 'highdicom')
 
@@ -332,7 +350,7 @@ def build_T13a(tree):
             raise Unsupported(f'parameter {p} no longer in encode_frame')
     body = strip_doc(fn.body)
     check_enum_args_normalised_first(body)
-    pre = Pre(_repo_src(), ROUTES_ENC, drop_targets={'kwargs', 'array', 'encoder'})
+    pre = Pre(_repo_src(), ROUTES_ENC, drop_targets=ENC_DROPPED)
     pre.handoff = ['rows', 'cols', 'samples_per_pixel', 'bits_allocated', 'bits_stored', 'pixel_representation']
     stmts = _fix(pre.stmts(body))
     consts = {n: ('str', '"' + v + '"') for n, v in _uid_consts().items()}
